@@ -155,7 +155,7 @@ where
         N: ToName,
         D: RecordData,
     {
-        let idx = self.records.binary_search_by(|stored| {
+        let compare = |stored: &Record<N, D>| {
             // Ordering based on base::Record::canonical_cmp excluding comparison of data
 
             if let Some(class) = class {
@@ -175,9 +175,16 @@ where
             } else {
                 Ordering::Equal
             }
-        });
-        match idx {
-            Ok(idx) => {
+        };
+        match self.records.binary_search_by(compare) {
+            Ok(mut idx) => {
+                // The binary search finds any of the matching records, step
+                // back to the first one.
+                while idx > 0
+                    && compare(&self.records[idx - 1]) == Ordering::Equal
+                {
+                    idx -= 1;
+                }
                 self.records.remove(idx);
                 true
             }
